@@ -2,6 +2,7 @@ package c06
 
 import (
 	"fmt"
+	"strings"
 	"sync"
 	"time"
 
@@ -17,14 +18,12 @@ import (
 func (ch *child) runStorm(sp *Spec) (restart bool) {
 	cr := &caseRun{sp: sp, tokens: map[string]string{}}
 	ch.rec.Cur(sp, "storm", []byte(sp.Class))
-	nChat := 40
-	chatToks := make([]string, nChat)
-	for i := range chatToks {
-		chatToks[i] = ch.newTok("hb")
-		cr.addTok(chatToks[i], "storm")
-	}
+	// chat flood tokens are made on the fly (own numbering: newTok is not for concurrent use)
+	floodBase := ch.newTok("hb")
 	lastTok := ch.newTok("hb")
+	cr.addTok(floodBase, "storm") // prefix of every flood token
 	cr.addTok(lastTok, "storm")
+	cr.storm = true
 	S0 := ch.snapshot()
 
 	var silents []*probe
@@ -39,6 +38,7 @@ func (ch *child) runStorm(sp *Spec) (restart bool) {
 	}
 
 	ch.storm.Store(true)
+	ch.rec.Observe("storms", 1)
 	var wg sync.WaitGroup
 	var mu sync.Mutex
 	var agentErr error
@@ -49,13 +49,22 @@ func (ch *child) runStorm(sp *Spec) (restart bool) {
 		verdict string
 	}
 	var results []*res
+	var fwg sync.WaitGroup
+	stopFlood := make(chan struct{})
 
-	wg.Add(1)
-	go func() { // chat flood from the authenticated observer
-		defer wg.Done()
-		for _, t := range chatToks {
-			ch.alice.Chat(t)
-			time.Sleep(time.Millisecond)
+	fwg.Add(1)
+	go func() { // chat flood from the authenticated observer, as long as logins are under way
+		defer fwg.Done()
+		for i := 0; i < 2000; i++ {
+			select {
+			case <-stopFlood:
+				if i >= 40 {
+					return
+				}
+			default:
+			}
+			ch.alice.Chat(fmt.Sprintf("%s-f%d", floodBase, i))
+			time.Sleep(2 * time.Millisecond)
 		}
 	}()
 	wg.Add(1)
@@ -92,13 +101,20 @@ func (ch *child) runStorm(sp *Spec) (restart bool) {
 		mu.Unlock()
 	}
 	for _, u := range []string{"bob", "carol", "dave"} {
-		wg.Add(2)
+		wg.Add(1)
 		go login(u, digestOf(opPassword(u)), true)
-		go login(u, digestOf("wrong-"+u), false)
+		// (once this shard has recorded that the tree wedges after a wrong-password
+		// rejection, the concurrent phase leaves those out: it would only wedge again)
+		if !ch.job.Cleanup {
+			wg.Add(1)
+			go login(u, digestOf("wrong-"+u), false)
+		}
 	}
 	wg.Add(1)
 	go login("mallory", digestOf(opPassword("bob")), false)
 	wg.Wait()
+	close(stopFlood)
+	fwg.Wait()
 	ch.storm.Store(false)
 
 	for _, r := range results {
@@ -119,7 +135,7 @@ func (ch *child) runStorm(sp *Spec) (restart bool) {
 			return ch.wedge(sp, "after concurrent phase", err)
 		}
 	}
-	ch.rec.Observe("storms", 1)
+	ch.rec.Observe("storms_completed", 1)
 
 	// oracle
 	for _, p := range silents {
@@ -131,7 +147,7 @@ func (ch *child) runStorm(sp *Spec) (restart bool) {
 			ch.rec.Inconclusive(fmt.Sprintf("case %d: a concurrent dial failed", sp.ID))
 			continue
 		}
-		c2 := &caseRun{sp: sp, tokens: cr.tokens, sent: true}
+		c2 := &caseRun{sp: sp, tokens: cr.tokens, sent: true, storm: true}
 		if r.valid {
 			// between the (successful) verdict and the Success frame a concurrent broadcast
 			// may legitimately reach the connection: only look for the verdict here
@@ -165,12 +181,19 @@ func (ch *child) runStorm(sp *Spec) (restart bool) {
 	}
 	S1 := ch.snapshot()
 	if S1.Authed != ch.authed+nvalid {
-		ch.rec.Violation("state:authenticated-count", fmt.Sprintf("%d stored connections are marked authenticated after the concurrent phase, expected %d", S1.Authed, ch.authed+nvalid), map[string]any{"spec": sp})
+		ch.rec.Violation("state:authenticated-count", fmt.Sprintf("%d stored connections are marked authenticated after the concurrent phase, expected %d", S1.Authed, ch.authed+nvalid), map[string]any{"spec": sp, "client_table": ch.clientTable()})
 	}
-	// foreign events may only be the connect notices of the valid logins
+	// foreign events may only be connect notices of the valid logins (fewer is possible:
+	// concurrent EventAppend calls lose entries, which is C11's race on EventsList)
 	extra := tailDiff(S0.Foreign, S1.Foreign)
-	if len(extra) != nvalid {
-		ch.rec.Violation("state:Events:concurrent", fmt.Sprintf("concurrent phase with %d successful logins appended %d events that the harness did not cause: %v", nvalid, len(extra), extra), map[string]any{"spec": sp})
+	bad := len(extra) > nvalid
+	for _, e := range extra {
+		if !strings.HasPrefix(e, "4/4 ") {
+			bad = true
+		}
+	}
+	if bad {
+		ch.rec.Violation("state:Events:concurrent", fmt.Sprintf("concurrent phase with %d successful logins appended events that the harness did not cause: %v", nvalid, extra), map[string]any{"spec": sp})
 	}
 	// leave one after the other
 	ch.authed += nvalid
